@@ -19,5 +19,6 @@ pub use builder::ZoneBuilder;
 /// Access to the version store for the verification harness.
 #[cfg(domain_verif)]
 pub mod verif_hooks {
-    pub use super::versioned::{Version, Versioned};
+    pub use super::versioned::{Version, VersionMarker, Versioned};
+    pub use super::write::ZoneVersions;
 }
